@@ -1449,3 +1449,418 @@ func ruleFieldTimesMonotone(r *Run) {
 	}
 	r.check(n >= 2, "neuronjson:field-time-stores", fmt.Sprintf("%d stores into the field-time table", n), "fewer than confirmed by reading: rule needs review", "-")
 }
+
+// ---------------------------------------------------------------------------------------------
+// R3.22 / R7.13 — pruned id maps are persisted: a datastore function that deletes entries from the
+// persisted uuid/version/repo maps of the repo manager passes putCaches on every exit without error.
+
+func init() {
+	reg := func(id, prop string) {
+		register(ruleDef{ID: id, Prop: prop, Tier: "quick", Floor: 3,
+			Title: "identifiers that were removed stay removed: every datastore function that deletes entries of the persisted id maps (uuidToVersion, versionToUUID, repoToUUID) reaches, on every path from the delete to an exit without error, a call that persists the maps (putCaches)",
+			Fn:    rulePrunedMapsPersisted})
+	}
+	reg("R3.22", "C03")
+	reg("R7.13", "C07")
+}
+
+func rulePrunedMapsPersisted(r *Run) {
+	w := r.W
+	persists := w.newReach(func(c ssa.CallInstruction) bool {
+		callee := staticCallee(c)
+		return callee != nil && callee.Name() == "putCaches"
+	}, nil)
+	isPersist := func(x ssa.Instruction) bool {
+		c, ok := x.(ssa.CallInstruction)
+		if !ok {
+			return false
+		}
+		if callee := staticCallee(c); callee != nil && (callee.Name() == "putCaches" || persists.From(callee)) {
+			return true
+		}
+		return false
+	}
+	n := 0
+	for _, f := range w.RepoFuncs {
+		if relPkg(pkgPathOf(f)) != "datastore" || len(f.Blocks) == 0 || strings.HasSuffix(w.fposFile(f), "_test.go") {
+			continue
+		}
+		k := 0
+		for _, c := range calls(f) {
+			cc, ok := c.(*ssa.Call)
+			if !ok {
+				continue
+			}
+			bi, ok := cc.Call.Value.(*ssa.Builtin)
+			if !ok || bi.Name() != "delete" || len(cc.Call.Args) != 2 {
+				continue
+			}
+			field := ""
+			for _, fn := range []string{"uuidToVersion", "versionToUUID", "repoToUUID"} {
+				if isFieldLoad(cc.Call.Args[0], "repoManager", fn) {
+					field = fn
+				}
+			}
+			if field == "" {
+				continue
+			}
+			k++
+			n++
+			construct := fmt.Sprintf("%s:delete#%d:%s:persisted", fname(f), k, field)
+			if _, ok := r.exceptionFor("R3.22", construct); ok {
+				continue
+			}
+			p := findPath(f, cc, isPersist, successExit, allEdges)
+			r.check(p == nil, construct, "every exit without error after the delete passes putCaches",
+				"entries are deleted from the persisted id map "+field+" and the function can end without persisting the map: after a restart the removed UUIDs resolve again although no node or repo stands behind them (and a repo cannot be created under the old root UUID)", w.pos(cc.Pos()), w.renderPath(p)...)
+		}
+	}
+	r.check(n >= 3, "datastore:id-map-deletes", fmt.Sprintf("%d deletes from the persisted id maps", n), "fewer than confirmed by reading: rule needs review", "-")
+}
+
+// ---------------------------------------------------------------------------------------------
+// R7.14 — a merge's parents are pairwise different: before anything is allocated, merge tests each
+// parent's version against the versions already seen (a lookup in a local set that the same loop
+// fills) and refuses the request on a repeat.
+
+func init() {
+	register(ruleDef{ID: "R7.14", Prop: "C07", Tier: "quick", Floor: 2,
+		Title: "the parents of a merge are pairwise different: merge looks every parent's version up in a local set that the same loop fills, the found edge of that lookup ends in an error exit, and lookup and insertion dominate the allocation of the child's UUID",
+		Fn:    ruleMergeParentsDistinct})
+}
+
+func ruleMergeParentsDistinct(r *Run) {
+	w := r.W
+	f := w.method("datastore", "repoManager", "merge")
+	if f == nil {
+		r.undecided("datastore.repoManager.merge", "anchor not found")
+		return
+	}
+	var alloc ssa.Instruction
+	for _, c := range calls(f) {
+		if callee := staticCallee(c); callee != nil && callee.Name() == "newUUID" {
+			alloc = c
+		}
+	}
+	if alloc == nil {
+		r.undecided("merge:newUUID", "the allocation of the child's UUID was not found")
+		return
+	}
+	ok := false
+	pos := w.fpos(f)
+	for _, b := range f.Blocks {
+		for _, in := range b.Instrs {
+			lk, isLk := in.(*ssa.Lookup)
+			if !isLk || !lk.CommaOk {
+				continue
+			}
+			mk, isMake := lk.X.(*ssa.MakeMap)
+			if !isMake {
+				continue
+			}
+			// the same loop inserts the same key
+			inserted := false
+			for _, ref := range *mk.Referrers() {
+				if mu, isMu := ref.(*ssa.MapUpdate); isMu && stripConv(mu.Key) == stripConv(lk.Index) && domInstr(lk, mu) {
+					inserted = true
+				}
+			}
+			// the found edge is an error exit
+			refused := false
+			for _, ref := range *lk.Referrers() {
+				ex, isEx := ref.(*ssa.Extract)
+				if !isEx || ex.Index != 1 {
+					continue
+				}
+				for _, r2 := range *ex.Referrers() {
+					if ifi, isIf := r2.(*ssa.If); isIf {
+						t := ifi.Block().Succs[0]
+						if ret, isRet := t.Instrs[len(t.Instrs)-1].(*ssa.Return); isRet && isErrorExit(ret) {
+							refused = true
+						}
+					}
+				}
+			}
+			if inserted && refused && blockReaches(lk.Block(), alloc.Block()) && !blockReaches(alloc.Block(), lk.Block()) {
+				ok = true
+				pos = w.pos(lk.Pos())
+			}
+		}
+	}
+	r.check(ok, "merge:parents-pairwise-different", "a repeated parent is refused before the child is allocated",
+		"merge never compares its parents with each other: a request naming one version twice is accepted, the child gets that parent twice and the parent lists the child twice — the DAG is no longer a simple graph", pos)
+	r.check(true, "merge:anchor", "merge and its allocation found", "", w.fpos(f))
+}
+
+
+// ---------------------------------------------------------------------------------------------
+// R12.16 — body labels that arrive in a client's mapping payload raise the label counter: a labelmap
+// function that takes posted mapping operations and enters their targets into the mapping also
+// feeds those targets to updateMaxLabel.
+
+func init() {
+	register(ruleDef{ID: "R12.16", Prop: "C12", Tier: "quick", Floor: 2,
+		Title: "client-chosen body labels raise the label counter: every labelmap function that receives posted mapping operations (*proto.MappingOps) and enters their Mapped labels into the mapping calls updateMaxLabel with a value computed from those Mapped labels, so a label in use is never handed out as new",
+		Fn:    rulePostedMappingsRaiseCounter})
+}
+
+func rulePostedMappingsRaiseCounter(r *Run) {
+	w := r.W
+	n := 0
+	fromMapped := func(v ssa.Value) bool {
+		for d := range dataDeps(v) {
+			switch x := d.(type) {
+			case *ssa.FieldAddr:
+				if name, _, _ := fieldName(x); name == "Mapped" && strings.Contains(x.X.Type().String(), "proto.MappingOp") {
+					return true
+				}
+			case *ssa.Call:
+				if callee := x.Call.StaticCallee(); callee != nil && callee.Name() == "GetMapped" {
+					return true
+				}
+			}
+		}
+		return false
+	}
+	for _, f := range w.RepoFuncs {
+		if relPkg(pkgPathOf(f)) != "datatype/labelmap" || len(f.Blocks) == 0 || f.Parent() != nil || strings.HasSuffix(w.fposFile(f), "_test.go") {
+			continue
+		}
+		takesOps := false
+		for _, p := range f.Params {
+			if strings.HasSuffix(p.Type().String(), "proto.MappingOps") {
+				takesOps = true
+			}
+		}
+		if !takesOps {
+			continue
+		}
+		enters, raises := false, false
+		for _, c := range calls(f) {
+			callee := staticCallee(c)
+			if callee == nil {
+				continue
+			}
+			args := c.Common().Args
+			if callee.Name() == "setMapping" && len(args) == 4 && fromMapped(args[3]) {
+				enters = true
+			}
+			if callee.Name() == "updateMaxLabel" && len(args) == 3 && fromMapped(args[2]) {
+				raises = true
+			}
+		}
+		if !enters {
+			continue
+		}
+		n++
+		r.check(raises, fname(f)+":posted-mappings:raise-label-counter", "the Mapped labels are fed to updateMaxLabel",
+			"body labels chosen by the client enter the mapping without raising the label counter: with labels 1–4 present, POST mappings {1000 ← [1,2]} and then nextlabel hands out 5, 6, … and eventually 1000 itself, a label that is in use", w.fpos(f))
+	}
+	r.check(n >= 1, "labelmap:posted-mapping-ingesters", fmt.Sprintf("%d functions enter posted mapping targets", n), "none found: rule needs review", "-")
+}
+
+// ---------------------------------------------------------------------------------------------
+// R20.30 / R12.17 — a refused batch stores nothing: in a function that decodes a protobuf batch from
+// the request and writes to the store, an exit whose error is a locally made validation message
+// (fmt.Errorf with no error argument) is not reachable after a storage write.
+
+func init() {
+	reg := func(id, prop string) {
+		register(ruleDef{ID: id, Prop: prop, Tier: "quick", Floor: 2,
+			Title: "a refused batch stores nothing: in every data-type function that decodes a protobuf batch (pb.Unmarshal) and writes to the store, no exit that returns a locally made validation message (fmt.Errorf without an error argument) is reachable after a storage write — the whole batch is validated before its first element is stored",
+			Fn:    ruleBatchValidatedBeforeStored})
+	}
+	reg("R20.30", "C20")
+	reg("R12.17", "C12")
+	register(ruleDef{ID: "R12.18", Prop: "C12", Tier: "quick", Floor: 2,
+		Title: "a stored label index keeps the label counter above every identifier it uses: in labelmap, the value handed to updateMaxLabel after an index was stored is computed from the index's supervoxel counts as well as from its body label",
+		Fn:    ruleIndexRaisesCounterAboveSupervoxels})
+}
+
+func ruleBatchValidatedBeforeStored(r *Run) {
+	w := r.W
+	sinks := w.newSinks()
+	writes := w.newReach(func(c ssa.CallInstruction) bool { return sinks.isStorageWrite(c) }, nil)
+	n := 0
+	for _, f := range w.RepoFuncs {
+		if !strings.HasPrefix(relPkg(pkgPathOf(f)), "datatype/") || len(f.Blocks) == 0 || f.Parent() != nil || strings.HasSuffix(w.fposFile(f), "_test.go") {
+			continue
+		}
+		decodes := false
+		decoded := map[ssa.Value]bool{}
+		for _, c := range calls(f) {
+			if callee := staticCallee(c); callee != nil && callee.Name() == "Unmarshal" && callee.Pkg != nil && strings.HasSuffix(callee.Pkg.Pkg.Path(), "protobuf/proto") {
+				decodes = true
+				if len(c.Common().Args) == 2 {
+					for d := range dataDeps(c.Common().Args[1]) {
+						if _, isAlloc := d.(*ssa.Alloc); isAlloc {
+							decoded[d] = true
+						}
+					}
+					decoded[c.Common().Args[1]] = true
+				}
+			}
+		}
+		// an exit is a verdict on the payload when the branch that leads to it tests the decoded batch
+		aboutPayload := func(b *ssa.BasicBlock) bool {
+			for i := 0; i < 6 && b != nil; i++ {
+				if len(b.Preds) != 1 {
+					return false
+				}
+				p := b.Preds[0]
+				if ifi, ok := p.Instrs[len(p.Instrs)-1].(*ssa.If); ok {
+					for d := range dataDeps(ifi.Cond) {
+						if decoded[d] {
+							return true
+						}
+					}
+					return false
+				}
+				b = p
+			}
+			return false
+		}
+		if !decodes {
+			continue
+		}
+		isWrite := func(x ssa.Instruction) bool {
+			c, ok := x.(ssa.CallInstruction)
+			if !ok {
+				return false
+			}
+			if _, isGo := x.(*ssa.Go); isGo {
+				return false
+			}
+			if sinks.isStorageWrite(c) {
+				return true
+			}
+			for _, g := range w.Callees(c) {
+				if relPkg(pkgPathOf(g)) == relPkg(pkgPathOf(f)) && writes.From(g) {
+					return true
+				}
+			}
+			return false
+		}
+		var firstWrite ssa.Instruction
+		for _, b := range f.Blocks {
+			for _, in := range b.Instrs {
+				if firstWrite == nil && isWrite(in) {
+					firstWrite = in
+				}
+			}
+		}
+		if firstWrite == nil {
+			continue
+		}
+		n++
+		// validation exits: the returned error comes from fmt.Errorf without an error-typed argument
+		isValidationExit := func(x ssa.Instruction) bool {
+			ret, ok := x.(*ssa.Return)
+			if !ok || !aboutPayload(ret.Block()) {
+				return false
+			}
+			for _, rv := range ret.Results {
+				if !isErrorType(rv.Type()) {
+					continue
+				}
+				for _, rt := range roots(rv, f) {
+					call, ok := rt.V.(*ssa.Call)
+					if !ok {
+						continue
+					}
+					callee := call.Call.StaticCallee()
+					if callee == nil || callee.Name() != "Errorf" || callee.Pkg == nil || callee.Pkg.Pkg.Path() != "fmt" {
+						continue
+					}
+					wraps := false
+					for d := range dataDeps(call) {
+						if d != ssa.Value(call) && isErrorType(d.Type()) {
+							wraps = true
+						}
+					}
+					if !wraps {
+						return true
+					}
+				}
+			}
+			return false
+		}
+		bad := false
+		var witness []ssa.Instruction
+		for _, b := range f.Blocks {
+			for _, in := range b.Instrs {
+				if !isWrite(in) {
+					continue
+				}
+				if p := findPath(f, in, nil, isValidationExit, allEdges); p != nil && !bad {
+					bad = true
+					witness = p
+				}
+			}
+		}
+		r.check(!bad, fname(f)+":batch:validated-before-stored", "no validation exit is reachable after a storage write",
+			"an element of the posted batch is validated only after earlier elements were stored: a batch with a malformed element is answered with an error although part of it has been applied (and bookkeeping done after the loop, such as raising the label counter, is skipped for the stored part)", w.pos(firstWrite.Pos()), w.renderPath(witness)...)
+	}
+	r.check(n >= 1, "datatypes:protobuf-batch-writers", fmt.Sprintf("%d functions decode a protobuf batch and write to the store", n), "none found: rule needs review", "-")
+}
+
+func ruleIndexRaisesCounterAboveSupervoxels(r *Run) {
+	w := r.W
+	n := 0
+	usesCounts := func(v ssa.Value, f *ssa.Function) bool {
+		// the value is computed (here or in a static callee of the package) from a range over the Counts of an index's blocks
+		seen := map[*ssa.Function]bool{}
+		var inFn func(vals map[ssa.Value]bool, g *ssa.Function) bool
+		inFn = func(vals map[ssa.Value]bool, g *ssa.Function) bool {
+			for d := range vals {
+				switch x := d.(type) {
+				case *ssa.FieldAddr:
+					if name, _, _ := fieldName(x); name == "Counts" {
+						return true
+					}
+				case *ssa.Call:
+					if callee := x.Call.StaticCallee(); callee != nil && len(callee.Blocks) > 0 && relPkg(pkgPathOf(callee)) == "datatype/labelmap" && !seen[callee] {
+						seen[callee] = true
+						for _, b := range callee.Blocks {
+							if ret, ok := b.Instrs[len(b.Instrs)-1].(*ssa.Return); ok {
+								for _, rv := range ret.Results {
+									if inFn(dataDeps(rv), callee) {
+										return true
+									}
+								}
+							}
+						}
+					}
+				}
+			}
+			return false
+		}
+		return inFn(dataDeps(v), f)
+	}
+	for _, f := range w.RepoFuncs {
+		if relPkg(pkgPathOf(f)) != "datatype/labelmap" || len(f.Blocks) == 0 || f.Parent() != nil || strings.HasSuffix(w.fposFile(f), "_test.go") {
+			continue
+		}
+		// functions that serialise a label index into the store themselves (pb.Marshal of an index → Put)
+		// or through putLabelIndex, and then raise the counter
+		storesIndex := false
+		for _, c := range calls(f) {
+			if callee := staticCallee(c); callee != nil && (callee.Name() == "putLabelIndex" || (callee.Name() == "Marshal" && callee.Pkg != nil && strings.HasSuffix(callee.Pkg.Pkg.Path(), "protobuf/proto"))) {
+				storesIndex = true
+			}
+		}
+		if !storesIndex {
+			continue
+		}
+		for _, c := range calls(f) {
+			callee := staticCallee(c)
+			if callee == nil || callee.Name() != "updateMaxLabel" || len(c.Common().Args) != 3 {
+				continue
+			}
+			n++
+			r.check(usesCounts(c.Common().Args[2], f), fname(f)+":index-stored:counter-above-supervoxels", "the raise is computed from the index's supervoxel counts too",
+				"after a posted label index was stored the label counter is raised to the body label only: supervoxel ids inside the index share the counter with body labels, so nextlabel (or a split) later hands out an id the index already uses", w.pos(c.Pos()))
+		}
+	}
+	r.check(n >= 2, "labelmap:index-stores-that-raise-the-counter", fmt.Sprintf("%d", n), "fewer than the two confirmed by reading (POST indices, POST index): rule needs review", "-")
+}
